@@ -47,7 +47,7 @@ LOCALE_LEAF = [K('locale_unicode_leaf', h) for h in ['leaf_parse_key', 'leaf_par
     [K('locale_leaf', h) for h in ['leaf_extension_type_from_byte', 'default_is_empty', 'tinystr8_eq_ord_is_text', 'tinystr4_eq_ord_is_text']]
 PRIVATE_BOUNDED = K('locale_private_leaf', 'private_try_from_iter_bounded',
                     bounded='PrivateExtensionList::try_from_iter (also proved unbounded in Verus on the real text, rule R10; this re-checks the compiled code): <= 2 subtags of <= 3 symbolic bytes, sort_unstable stubbed by a 2-element sort',
-                    timeout=900, cost='65 s')
+                    tier='thorough', timeout=1800, cost='65-240 s')
 BRIDGE_ALL = r'::x_\w+$'
 LID_LEMMAS = r'::(lemma_(sorted_dedup_variants|var_run\w*|classes_disjoint|lex_\w+|adjacent_\w+|toks_skip|split_nonempty|first_sep_bounds)|first_sep_by|split_by|var_run|lex_le)$'
 LID_PARSER = [V('langid', r'::parser::parse_language_identifier_from_iter$'), V('langid', r'::parser::parse_language_identifier$'),
@@ -108,8 +108,8 @@ PROPS.update({
 # ---- properties decided (in part) from the mutator / Display / matches contracts --------------------------------
 LID_MUT = [V('langid', r'::LanguageIdentifier::(from_parts|set_variants|clear_variants|has_variant|variants|into_parts)$'),
            V('langid', r'::lemma_(sorted_dedup_variants|variants_\w+)$')]
-LOC_MUT = [V('locale', r'::UnicodeExtensionList::(is_empty|keyword|attributes|set_keyword|remove_keyword|clear_keywords|clear_attributes|has_attribute|set_attribute|remove_attribute)$'),
-           V('locale', r'::TransformExtensionList::(is_empty|tlang|tfield|set_tlang|clear_tlang|set_tfield|remove_tfield|clear_tfields)$'),
+LOC_MUT = [V('locale', r'::UnicodeExtensionList::(is_empty|keyword|keyword_keys|attributes|set_keyword|remove_keyword|clear_keywords|clear_attributes|has_attribute|set_attribute|remove_attribute)$'),
+           V('locale', r'::TransformExtensionList::(is_empty|tlang|tfield|tfield_keys|set_tlang|clear_tlang|set_tfield|remove_tfield|clear_tfields)$'),
            V('locale', r'::PrivateExtensionList::(is_empty|tags|clear_tags|has_tag|add_tag|remove_tag)$'),
            V('locale', r'::ExtensionsMap::is_empty$'),
            V('locale', r'::(unicode::lemma_\w+|vspec::lemma_(kv_wf_\w+|fmc_utype|insert_multiset|map_values_multiset|texts_\w+|strict_sorted_\w+|weak_sorted_\w+|sorted_\w+|tiny_text\w*|lower_props))$')]
@@ -243,7 +243,7 @@ PROPS.update({
     'C14': {
         'kani': [K('langid_dir', h) for h in ['layout_tables_eq_cldr', 'dir_is_model', 'dir_cldr_rows']] +
                 [K('langid_dir_likely', h) for h in ['layout_tables_eq_cldr', 'dir_is_model', 'dir_cldr_rows_direct', 'dir_cldr_rows_likely_model', 'dir_cldr_rows_split']] +
-                [K('langid_dir_likely', 'dir_cldr_rows_likely_real', timeout=1500, cost='200 s')] + CASCADE_QUICK,
+                [K('langid_dir_likely', 'dir_cldr_rows_likely_real', tier='thorough', timeout=3000, cost='200 s')] + CASCADE_QUICK,
         'trusted': LIKELY_TRUST + ['vf/gen.py derives the expected script / language sets, the 710 (locale, characterOrder) rows and, for the 72 script-less rows of '
                                    'right-to-left languages, the likely script from the CLDR JSON files',
                                    'with likely subtags enabled, character_direction is verified against maximize\'s CONTRACT (kani::stub(maximize, M)); that the real maximize '
@@ -282,12 +282,12 @@ PROPS.update({
     'C20': {
         'scan': ['cfg_sites'],
         'kani': [K('langid_leaf', h) for h in LEAF_LID + ['leaf_language_default_is_und']] +
-                [K('langid_leaf@' + FEATS_L, h) for h in LEAF_LID + ['leaf_language_default_is_und']] +
+                [K('langid_leaf@' + FEATS_L, h, tier='thorough', cost='40 s each') for h in LEAF_LID + ['leaf_language_default_is_und']] +
                 [K('langid_match', h) for h in ['match_language', 'match_fields_no_variants', 'as_ref_is_identity']] +
                 [K('langid_match', 'match_variants_only', bounded='variant lists of length <= 2 per side')] +
-                [K('langid_match@' + FEATS_L, h) for h in ['match_language', 'match_fields_no_variants', 'as_ref_is_identity']] +
-                [K('langid_match@' + FEATS_L, 'match_variants_only', bounded='variant lists of length <= 2 per side')] +
-                LOCALE_LEAF + [K(k['unit'] + '@likelysubtags', k['harness']) for k in LOCALE_LEAF] +
+                [K('langid_match@' + FEATS_L, h, tier='thorough', cost='30-90 s each') for h in ['match_language', 'match_fields_no_variants', 'as_ref_is_identity']] +
+                [K('langid_match@' + FEATS_L, 'match_variants_only', bounded='variant lists of length <= 2 per side', tier='thorough', cost='90 s')] +
+                LOCALE_LEAF + [K(k['unit'] + '@likelysubtags', k['harness'], tier='thorough', cost='10-60 s each') for k in LOCALE_LEAF] +
                 [K('langid_dir', 'dir_is_model'), K('langid_dir_likely', 'dir_is_model'), K('langid_serde', 'from_str_is_from_bytes'),
                  K('langid_serde', 'deserialize_str_is_parse'), K('langid_wrap', 'wrappers_agree_with_parser'),
                  K('langid_wrap@' + FEATS_L, 'wrappers_agree_with_parser')],
@@ -313,7 +313,7 @@ B_INV = B('inv', 'structured locales written two ways: 4 heads x variant subsets
                  '{ca-buddhist,nu,co-phonebk-trad} x tlang {none,es-ar} x tfield subsets {h0-hybrid,m0-names} x optional -x-a-b; all permutations, one duplicated element, '
                  'both -u-/-t- orders, 4 case/separator masks')
 B_MUT = B('mut', 'every sequence of <= 3 of 53 mutator calls (valid, boundary and invalid arguments) on 3 start values, every getter / is_empty / has_* / to_string / re-parse '
-                 'compared with a set / multiset / map model after every step (the only cover for keyword_keys / tfield_keys, which are outside the Verus contracts)')
+                 'compared with a set / multiset / map model after every step')
 B_FP = B('fromparts', 'from_parts / into_parts of LanguageIdentifier and Locale for every variant list of length <= 3 over {macos,valencia,1996} (any order, duplicates), 2 heads, '
                       'with and without extensions (the Locale extension string is re-parsed as an ExtensionsMap)')
 LID_RT = [V('langid', r'::vspec::lemma_(first_sep_prefix|dash_join_front|split_head_join|dash_join_concat|opt_dash_join|lid_ser_is_join|alnum_no_sep|alpha_is_alnum|und_props|'
@@ -389,6 +389,10 @@ B_FEAT = B('features', 'differential run of one observation program (featdiff/: 
                        'equality and == &str on all pairs of a 250-identifier and a 190-locale pool; a 40-step mutator / getter / conversion script on 900 start values; '
                        'character_direction only for identifiers that carry a script')
 PROPS['C20']['bounded'] = [B_FEAT]
+B_DIRROWS = B('dirrows', 'closed obligation decided by EXECUTION of the real library (likely subtags on) on its whole finite domain: all 710 CLDR layout locales (rows re-derived from the '
+                         'JSON files on every run): character_direction == characterOrder, and for the 72 script-less rows of right-to-left languages the real maximize yields '
+                         'CLDR\'s likely script; the same statement is proved by CBMC in the thorough tier (dir_cldr_rows_likely_real)')
+PROPS['C14']['bounded'] = [B_DIRROWS]
 
 NOT_APPLICABLE = {
     'C16': 'compile-time macro expansion (proc_macro::TokenStream, compile success/failure) is outside any function contract; see DESIGN.md',
